@@ -815,17 +815,31 @@ def positiveGuard (k : Kind) (p : List Float) : Bool :=
   | .twlcD, [Lp, Lc, St, _, _, _, _, kT] => !(Lp <= 0.0 || Lc <= 0.0 || St <= 0.0 || kT <= 0.0)
   | _, p => p.all fun v => !(v <= 0.0)
 
+/-- branch (`C`ardano / `T`rigonometric), band (`R`egularised / `N`ot) and the amplification of
+    rounding errors of the coefficients by the cancellations inside `det = q²/4 + p³/27` and inside
+    `∓√det − q/2` (the arguments of the cube roots) -/
+def cubicReport (a b c : Float) : String :=
+  let p := cubP a b
+  let q := cubQ a b c
+  let det := cubDet a b c
+  let ampDet := (q * q / 4.0 + Float.abs (p * p * p) / 27.0) / Float.abs det
+  let s0 := Float.sqrt det
+  let tmin := min (Float.abs (s0 - 0.5 * q)) (Float.abs ((-s0) - 0.5 * q))
+  let ampT := if det > 0.0 then (Float.abs q * 0.5 + s0) / tmin else 1.0
+  let amp := if ampT > ampDet then ampT else ampDet
+  (if RealLike.lt (0.0 : Float) det then "C" else "T") ++ (if regularised a b c then "R" else "N")
+    ++ ":" ++ showFloat amp
+
 def branchOf (k : Kind) (x : Float) (p : List Float) : String :=
   match baseCoef k x p with
   | none => "-"
-  | some (a, b, c) =>
-    (if RealLike.lt (0.0 : Float) (cubDet a b c) then "C" else "T") ++ (if regularised a b c then "R" else "N")
+  | some (a, b, c) => cubicReport a b c
 
 def handle : List String → Option String
   | ["c13.val", k, x, p] => do
     let k ← Kind.ofString? k; let x ← flt? x; let p ← fltList? p
     let v ← baseVal k x p
-    if !positiveGuard k p then some "ValueError" else some (showFloat v)
+    if !positiveGuard k p then some "ValueError" else some (branchOf k x p ++ " " ++ showFloat v)
   | ["c13.jac", k, x, p] => do
     let k ← Kind.ofString? k; let x ← flt? x; let p ← fltList? p
     let j ← baseJac k x p
@@ -840,8 +854,7 @@ def handle : List String → Option String
     let (ya, yb, yc) := calcCubicRootDerivs a b c k
     let y := calcCubicRoot a b c k
     let (ia, ib, ic) := implicitDerivs a b y
-    some ((if RealLike.lt (0.0 : Float) (cubDet a b c) then "C" else "T") ++ (if regularised a b c then "R" else "N")
-      ++ " " ++ showFloatList [y, ya, yb, yc, ia, ib, ic])
+    some (cubicReport a b c ++ " " ++ showFloatList [y, ya, yb, yc, ia, ib, ic])
   | "c13.tree" :: what :: x :: sols :: rest => do
     let x ← flt? x; let sols ← fltList? sols
     let (assoc, rest) ← parseAssoc rest
